@@ -918,7 +918,9 @@ func paramTypesSpelled(fs []*ast.Field, sig *types.Signature, n int) bool {
 }
 
 func resultTypesSpelled(fs []*ast.Field, sig *types.Signature, n int) bool {
-	return vs.Forall(n, func(j int) bool { return spelledFor(fs[j].Type, sig.Results().At(j).Type()) && vs.IsAllocated(fs[j].Type) })
+	return vs.Forall(n, func(j int) bool {
+		return spelledFor(fs[j].Type, sig.Results().At(j).Type()) && vs.IsAllocated(fs[j].Type)
+	})
 }
 
 func spellsSignature(e ast.Expr, sig *types.Signature) bool {
